@@ -18,6 +18,7 @@ def dispatch (req : Sexp) : Except String Sexp :=
     | "reads" => Driver.handleReads args
     | "simp" => Driver.handleSimp args
     | "pure" => Driver.handlePure args
+    | "scoped" => Driver.handleScoped args
     | "mentions" => Driver.handleMentions args
     | "floatprod" => Driver.handleFloatProd args
     | "miglobal" => Driver.handleMiGlobal args
